@@ -18,7 +18,7 @@ RULE = (
     "the catalogue of serialized public attributes present on the loaded object (project fields, common module fields, every controller, "
     "option and MIDI binding, type-specific payload elements: curve/waveform/harmonic/mapping elements, Vorbis data, sampler fields, note map, "
     "envelope fields and points, samples added/edited/removed, effect replaced or edited, MetaModule count/labels/mappings and edits inside "
-    "the embedded project, pattern fields and note cells); value from the attribute's domain. 1-2 successive edits per case. Oracle "
+    "the embedded project, pattern fields and note cells); value from the attribute's domain. 1-2 successive edits per case, with the loaded object optionally saved or cloned (result discarded) before each edit; dedicated shards for Samplers (with embedded effect), MetaModules and nested MetaModules (edits inside embedded projects at depth 1-2). Oracle "
     "(metamorphic): snapshot after the edit differs from the one before only at the edited path + declared couplings and shows the new value; "
     "snapshot(load(save(edited))) == snapshot(edited). every fixture is additionally swept deterministically over every attribute of the common catalogue (project fields, common module fields, every controller at both range ends / two members, every option, one binding per controller; quick: every 6th attribute) and with 12 (quick) / 60 (thorough) generated edits. distinct = case hash; "
     "non-trivial = the edit changed the value"
@@ -30,7 +30,7 @@ ASSUMPTIONS = [
     "instruments without the 'SAMP' signature (true legacy) are outside this property's domain",
 ]
 REQUIRED_LABELS = {
-    "quick": ["edit_pf", "edit_mc", "edit_ctl", "edit_opt", "edit_cmid", "edit_pay", "edit_cell", "src_fixture", "src_project", "src_synth", "sampler_edit", "changed", "attr_sweep"],
+    "quick": ["edit_pf", "edit_mc", "edit_ctl", "edit_opt", "edit_cmid", "edit_pay", "edit_cell", "src_fixture", "src_project", "src_synth", "sampler_edit", "changed", "attr_sweep", "saved_before_edit", "embedded_edit"],
     "thorough": ["edit_pf", "edit_mc", "edit_ctl", "edit_opt", "edit_cmid", "edit_pay", "edit_cell", "edit_patf", "src_fixture", "src_project", "src_synth", "sampler_edit", "metamodule_edit", "embedded_edit", "changed", "fixture_sweep"],
 }
 
@@ -42,7 +42,7 @@ def exhaustive(tier):
 def plan(tier):
     n, per = (16, 60) if tier == "quick" else (16, 1500)
     descs = [{"kind": "random", "examples": per} for _ in range(n)]
-    for t in ("Sampler", "MetaModule"):
+    for t in ("Sampler", "MetaModule", "NestedMeta", "SamplerEffect"):
         for i in range(2):
             descs.append({"kind": "focus", "type": t, "examples": per})
     fs = c05.fixture_files()
@@ -63,12 +63,22 @@ def base_bytes(src):
             return f.read()
     if src["src"] == "project":
         return build.make_project(src["spec"]).read()
+    if src["src"] == "meta":
+        from checks import c15
+
+        return Synth(c15.build_meta(src["spec"])).read()
     return Synth(build.make_module(src["spec"])).read()
 
 
 @st.composite
 def edit_case(draw, fixture=None, focus=None):
-    if focus is not None:
+    if focus == "NestedMeta":
+        from checks import c15
+
+        src = {"src": "meta", "spec": draw(c15.meta_spec(draw(st.integers(1, 2)), in_project=False))}
+    elif focus == "SamplerEffect":
+        src = {"src": "synth", "spec": draw(build.module_spec(in_project=False, depth=1, tname="Sampler").filter(lambda ms: ms["payload"].get("effect")))}
+    elif focus is not None:
         if draw(st.integers(0, 3)) == 0:
             src = {"src": "fixture", "file": {"Sampler": "sampler.sunsynth", "MetaModule": "metamodule.sunsynth"}[focus]}
         else:
@@ -93,6 +103,8 @@ def edit_case(draw, fixture=None, focus=None):
         eds.append(draw(edits.draw_edit(obj, focus=focus is not None)))
     src = dict(src)
     src["edits"] = eds
+    # the loaded object may be saved / cloned (result discarded) before and between the edits
+    src["saves"] = draw(st.lists(st.sampled_from(["read", "clone"]), min_size=len(eds), max_size=len(eds)).map(lambda l: [x if i % 2 == 0 or x == "read" else None for i, x in enumerate(l)])) if draw(st.booleans()) else [None] * len(eds)
     return src
 
 
@@ -157,7 +169,14 @@ def run_case(ctx, case):
     obj = c05.load(base_bytes(case))
     labels = {"src_" + case["src"]}
     changed_any = False
-    for e in case["edits"]:
+    saves = case.get("saves") or [None] * len(case["edits"])
+    for e, pre in zip(case["edits"], saves):
+        if pre == "read":
+            obj.read()
+            labels.add("saved_before_edit")
+        elif pre == "clone":
+            (obj.module if type(obj).__name__ == "Synth" else obj).clone()
+            labels.add("saved_before_edit")
         s0 = snapshot.snap(obj)
         primary, want, extra = edits.edit_paths(obj, e)
         edits.apply_edit(obj, e)
